@@ -16,7 +16,7 @@ CHECKS = {
          "DESIGN.md §5 C13"),
  "C09": ("exploration",
          "runtime monitor: full accessor sweep and directory-tree comparison of Close() vs OpenDir() vs ExtractArchive(WriteArchive())",
-         "Bundles built from worlds with odd addresses, aliases, several registry versions, deprecations, metadata and packages with links, empty directories, odd modes and odd names are re-opened and sent through WriteArchive/ExtractArchive; a sweep over every accessor (incl. all lookups relative to the root and SourceForLocalPath of every path) must print identically for all three (and twice for the first), and the extracted tree must equal the built one. A directed exhaustive phase (48 worlds) covers registry versions that differ only in build metadata.",
+         "Bundles built from worlds with odd addresses, aliases, several registry versions, deprecations, metadata and packages with links, empty directories, odd modes and odd names are re-opened and sent through WriteArchive/ExtractArchive; a sweep over every accessor (incl. all lookups relative to the root and SourceForLocalPath of every path) must print identically for all three (and twice for the first), and the extracted tree must equal the built one. A directed exhaustive phase (48 worlds) covers registry versions that differ only in build metadata; successive bundles of one worker process are built and extracted at different locations.",
          "Modification times are not compared.",
          "DESIGN.md §5 C09"),
  "C10": ("exploration",
@@ -26,7 +26,7 @@ CHECKS = {
          "DESIGN.md §5 C10"),
  "C18": ("exploration",
          "runtime monitor over harness-written manifests: directory-name refusal, containment of every lookup answer, inverse and stability of forward / reverse lookups, refusal of foreign paths",
-         "Field-wise manifests (exhaustive over a 30-name hostile directory alphabet x 3 shapes incl. aliases of equal length), PRNG manifests and structure- / byte-mutated manifests of real builds are written into a bundle root; whenever OpenDir accepts one, the four clauses of the property are checked over all listed packages and registry versions, 13 in-package path shapes (5 of them through links that exist on disk below the package directory) in two spellings and 7 foreign paths; every listed package is also looked up through text with 8 hostile sub-paths and through addresses derived by relative resolution with 6 climbing operands. 264 documents kept by coverage-guided fuzzing campaigns are replayed; thorough adds a native go test -fuzz run of OpenDir with the lookup assertions.",
+         "Field-wise manifests (exhaustive over a 30-name hostile directory alphabet x 3 shapes incl. aliases of equal length), PRNG manifests and structure- / byte-mutated manifests of real builds are written into a bundle root; whenever OpenDir accepts one, the four clauses of the property are checked over all listed packages and registry versions, 15 in-package path shapes (5 of them through links that exist on disk below the package directory, 2 with a back-slash in a name) in two spellings and 7 foreign paths plus, per package directory, a back-slash neighbour and the names differing from it only in case; every listed package is also looked up through text with 8 hostile sub-paths and through addresses derived by relative resolution with 6 climbing operands. 264 documents kept by coverage-guided fuzzing campaigns are replayed; thorough adds a native go test -fuzz run of OpenDir with the lookup assertions.",
          "The harness learns the document's directory names by decoding it leniently itself.",
          "DESIGN.md §5 C18"),
  "C08": ("exploration",
@@ -51,17 +51,17 @@ CHECKS = {
          "DESIGN.md §5 C16"),
  "C03": ("exploration",
          "runtime monitor: set of shipped files (real Pack in 3 modes + one-package bundle build) vs an independent segment-wise glob reference over a fixed path universe; exhaustive single rules and ordered pairs",
-         "For every generated rule file the files actually shipped by Pack (ignore on, ignore off, through a dereferenced external directory) and left in a bundle package directory are compared with the verdict of ref.Excluded (a regexp-free, segment-wise implementation of the documented rule language) for every path of the universe. Exhaustive over all single rules (3048) and all ordered pairs of a rule core; PRNG files with comments, blanks, padding and CRLF; every rule file ends, depending on its text, with LF, CR LF or no line terminator; thorough adds ordered triples and the full 323-path universe.",
+         "For every generated rule file the files actually shipped by Pack (ignore on, ignore off, through a dereferenced external directory) and left in a bundle package directory are compared with the verdict of ref.Excluded (a regexp-free, segment-wise implementation of the documented rule language) for every path of the universe. Exhaustive over all single rules (3048) and all ordered pairs of a rule core; PRNG files with comments, blanks, padding and CRLF; every rule file ends, depending on its text, with LF, CR LF or no line terminator; a rule file that is a directory or has an over-long line leaves the built-in rules in force; all triples (A, B, A) of a 25-rule core; thorough adds ordered triples and the full 323-path universe.",
          "Directory entries are not judged; when the dereferenced link's own path is excluded no claim is made about paths below it; undocumented pattern forms are excluded from the universe.",
          "DESIGN.md §5 C03"),
  "C15": ("exploration",
          "runtime reference interpreter of the entry list vs the destination tree read back with Lstat/Readlink; exhaustive short sequences x tar formats x privilege",
-         "A reference interpreter reads each entry sequence into an abstract tree (last entry per path wins, implicit parents without metadata, directory metadata final); the real Unpack runs as root and as uid 65534 inside a chroot and the destination is compared field by field (kind, content, permission bits, mtime, link target, no extra paths). Conflict-free representable sequences must unpack; hard link / device / fifo entries (also inserted at every position of PRNG sequences) must make it fail. Entry sequences kept by coverage-guided fuzzing campaigns (harness/corpus) are replayed under the same oracle; header records (PAX 'g') must have no effect on the destination; an entry that re-uses the path of an earlier link must replace it if the archive is accepted; the destination is written in 8 spellings.",
+         "A reference interpreter reads each entry sequence into an abstract tree (last entry per path wins, implicit parents without metadata, directory metadata final); the real Unpack runs as root and as uid 65534 inside a chroot and the destination is compared field by field (kind, content, permission bits, mtime, link target, no extra paths). Conflict-free representable sequences must unpack; hard link / device / fifo entries (also inserted at every position of PRNG sequences) must make it fail. Entry sequences kept by coverage-guided fuzzing campaigns (harness/corpus) are replayed under the same oracle; header records (PAX 'g') must have no effect on the destination; an entry that re-uses the path of an earlier link must replace it if the archive is accepted; the destination is written in 9 spellings; the gzip stream cut into three members is a fourth 'format'; entries for the archive root prescribe the destination's own mode and time; entries may carry an access time different from their modification time.",
          "Sequences whose sequential reading is itself undefined (entry over an existing link, file vs directory conflicts) are counted but not judged; implicit parents' metadata, symlink mtimes and the destination root are not compared.",
          "DESIGN.md §5 C15"),
  "C02": ("exploration",
          "runtime round-trip monitor: materialise tree, real Pack + Unpack, recursive Lstat/Readlink/content comparison; generated trees + exhaustive mode and mtime sweeps x options x privilege",
-         "Generated trees (odd names, all 512 file modes, read-only and empty directories, fractional / extreme mtimes, in-tree relative links of every shape) are packed with all four option sets and unpacked into an empty directory as root and as an unprivileged uid; source and result are read back independently and compared on path set, kind, content, permission bits, link target and mtime rounded to the second. The destination is written in 8 spellings (clean, trailing separator, dot segments, relative, '.'); one phase packs and unpacks 360 files while the process may hold 64 descriptors. An exhaustive phase plants .terraform/modules (re-included by the default rules) with 4 modes x 4 contents x 3 depths beside excluded siblings.",
+         "Generated trees (odd names, all 512 file modes, read-only and empty directories, fractional / extreme mtimes, in-tree relative links of every shape) are packed with all four option sets and unpacked into an empty directory as root and as an unprivileged uid; source and result are read back independently and compared on path set, kind, content, permission bits, link target and mtime rounded to the second. The destination is written in 9 spellings (clean, trailing separator, dot segments, relative, '.', below a symlinked parent); trees with a rule file of their own (6 rule files x option sets) are compared against the reference matcher; one phase packs and unpacks 360 files while the process may hold 64 descriptors. An exhaustive phase plants .terraform/modules (re-included by the default rules) with 4 modes x 4 contents x 3 depths beside excluded siblings.",
          "Root's own metadata and symlink mtimes are not compared; trees in which a link is led outside by another link are outside the universe (C05 owns them); unprivileged trees keep owner read/search permission.",
          "DESIGN.md §5 C02"),
  "C05": ("exploration",
@@ -76,7 +76,7 @@ CHECKS = {
          "DESIGN.md §5 C20"),
  "C01": ("exploration",
          "runtime snapshot-diff monitor (incl. ctime/inode/content hash) around Unpack in a chroot arena; exhaustive short entry sequences + PRNG + reader faults at every offset",
-         "Each hostile archive is unpacked by the real Unpack inside a chroot whose every path outside dst is snapshotted before and after the call (type, mode, owner, size, nlink, inode, mtime, ctime, link target, content hash); any difference, on success or error, is a violation. Sequences: all singles x 4 arenas x 10 allow-lists, all pairs (quick) / triples (thorough) of a 50-entry alphabet covering every name/target shape x type, all triples of a 28-entry alphabet of cooperating entries, PRNG sequences, link-focused sequences, entry sequences kept by coverage-guided fuzzing campaigns, a Packer reused for a second destination with destination-relative allow-list entries (also after a first call that broke off half way), a second Unpack into the same destination (same or fresh Packer) with entries arriving where the first call left links, 1-4 links led outside by another link in one archive with and without a refused entry behind them, 7 spellings of dst, and streams with the reader failing or ending at every byte offset (incl. inside the body of a large file for every arena x spelling). Thorough adds a native go test -fuzz run (80000 executions, containment assertion).",
+         "Each hostile archive is unpacked by the real Unpack inside a chroot whose every path outside dst is snapshotted before and after the call (type, mode, owner, size, nlink, inode, mtime, ctime, link target, content hash); any difference, on success or error, is a violation. Sequences: all singles x 4 arenas x 10 allow-lists, all pairs (quick) / triples (thorough) of a 50-entry alphabet covering every name/target shape x type, all triples of a 28-entry alphabet of cooperating entries, PRNG sequences, link-focused sequences, entry sequences kept by coverage-guided fuzzing campaigns, a Packer reused for a second destination with destination-relative allow-list entries (also after a first call that broke off half way), a second Unpack into the same destination (same or fresh Packer; also with the destination removed and made anew in between) with entries arriving where the first call left links or directories, 1-4 links led outside by another link in one archive (also passing twice through the same link) with and without a refused entry behind them, with files, links and directories of the same names sitting in the working directory, 7 spellings of dst, and streams with the reader failing or ending at every byte offset (incl. inside the body of a large file for every arena x spelling). Thorough adds a native go test -fuzz run (80000 executions, containment assertion).",
          "Root inside a chroot on tmpfs; atime ignored; pre-populated dst has no symlinks.",
          "DESIGN.md §5 C01"),
  "C04": ("exploration",
@@ -91,7 +91,7 @@ CHECKS = {
          "DESIGN.md §5 C06"),
  "C07": ("exploration",
          "runtime policy predicate over accessors of every accepted remote address; grammar must-accept; exhaustive single-rule-violation table; constructor tampering",
-         "An independent policy predicate (type, scheme, userinfo, query arguments, archive form, sub-path segments) is evaluated on every remote address accepted by any route (4 string parsers and MakeRemoteSource) over grammar strings (which must be accepted), an exhaustive table of single-rule violations x spellings (which must be rejected), mutated/arbitrary strings, the strings kept by coverage-guided fuzzing campaigns, and (type,URL,sub-path) triples with one tampered part.",
+         "An independent policy predicate (type, scheme, userinfo, query arguments, archive form, sub-path segments) is evaluated on every remote address accepted by any route (4 string parsers and MakeRemoteSource) over grammar strings (which must be accepted), an exhaustive table of single-rule violations x spellings (which must be rejected), mutated/arbitrary strings, the strings kept by coverage-guided fuzzing campaigns, percent-encoded and case-varied spellings of the archive / checksum / ref arguments, and (type,URL,sub-path) triples with one tampered part.",
          "The predicate in props/c07.go is the reading of the documented policy; must-accept is limited to documented forms.",
          "DESIGN.md §5 C07"),
  "C19": ("exploration",
